@@ -61,6 +61,16 @@ def _collapse_invariants(
     # endregion
 
 
+def _provides(base: type, key: str) -> bool:
+    """
+    Check whether the class ``base`` provides the attribute ``key`` to its instances.
+
+    ``hasattr(base, key)`` can not be used for that since it also finds the attributes of the *meta-class*
+    (*e.g.*, ``type.__call__``, ``type.mro`` or ``abc.ABCMeta.register``) which the instances do not have.
+    """
+    return any(key in vars(cls) for cls in base.__mro__)
+
+
 def _collapse_preconditions(
     base_preconditions: List[List[Contract]],
     bases_have_func: bool,
@@ -176,7 +186,7 @@ def _decorate_namespace_function(
         a_base_accepts_all = False
 
         for base in bases:
-            if hasattr(base, key):
+            if _provides(base, key):
                 bases_have_func = True
 
                 # Check if there is a checker function in the base class
@@ -271,7 +281,7 @@ def _decorate_namespace_property(
         a_base_accepts_all = False
 
         for base in bases:
-            if hasattr(base, key):
+            if _provides(base, key):
                 base_property = getattr(base, key)
                 assert isinstance(
                     base_property, property
